@@ -462,3 +462,57 @@ package compiler
 //@     invariant newnames: forall k, i: int :: old(len(object.Type.Struct.Fields)) <= k && k < len(object.Type.Struct.Fields) && 0 <= i && i < old(len(object.Type.Struct.Fields)) ==> old(object.Type.Struct.Fields[i].Name) != object.Type.Struct.Fields[k].Name
 //@     invariant kept: len(object.Type.Struct.Fields) >= old(len(object.Type.Struct.Fields)) && (forall i: int :: 0 <= i && i < old(len(object.Type.Struct.Fields)) ==> object.Type.Struct.Fields[i] == old(object.Type.Struct.Fields[i]))
 //@     invariant added: forall k: int :: old(len(object.Type.Struct.Fields)) <= k && k < len(object.Type.Struct.Fields) ==> (exists p: int @src :: 0 <= p && p <= $i && object.Type.Struct.Fields[k].Name == pass.Fields[p].Name && object.Type.Struct.Fields[k].Type == pass.Fields[p].Type && object.Type.Struct.Fields[k].Required == pass.Fields[p].Required) witness src := ite(k == len(object.Type.Struct.Fields) - 1 && $i >= 0, $i, skolem("src", "last", k))
+//
+// allowed_objects (FilterSchemas): "restricting an input keeps exactly the listed objects plus everything
+// they reference". The worklist step is pinned to reference RESOLUTION (ast.Schemas.LocateObject, the
+// function that decides whether a reference resolves everywhere else): a reference met while exploring
+// an allowed object queues the object it resolves to, under the object's own key.
+//@ spec refKey(pkg, name) = pkg + "." + name
+//@ func (*FilterSchemas).buildAllowList$1
+//@   property C05
+//@   requires def.Kind == ast.KindRef && def.Ref != nil && rootObjects != nil && wf(rootObjects)
+//@   modifies rootObjects.order, rootObjects.records[*], rootObjects.order[*], spare-capacity
+//@   ensures  same: result.0 == def && result.1 == nil
+//@   ensures  wf: wf(rootObjects)
+//@   ensures  queued: old(call("ast.Schemas.LocateObject", schemas, def.Ref.ReferredPkg, def.Ref.ReferredType).1) ==> rootObjects.records.has(refKey(def.Ref.ReferredPkg, def.Ref.ReferredType)) && rootObjects.records[refKey(def.Ref.ReferredPkg, def.Ref.ReferredType)] == old(call("ast.Schemas.LocateObject", schemas, def.Ref.ReferredPkg, def.Ref.ReferredType).0)
+//@   ensures  grows: forall k: string :: old(rootObjects.records.has(k)) ==> rootObjects.records.has(k)
+//
+// A constant reference queues the enum (or constant) object it resolves to under the object's own key.
+//@ func (*FilterSchemas).buildAllowList$2
+//@   property C05
+//@   requires def.Kind == ast.KindConstantRef && def.ConstantReference != nil && rootObjects != nil && wf(rootObjects)
+//@   modifies rootObjects.order, rootObjects.records[*], rootObjects.order[*], spare-capacity
+//@   ensures  same: result.0 == def && result.1 == nil
+//@   ensures  wf: wf(rootObjects)
+//@   ensures  queued: old(call("ast.Schemas.LocateObject", schemas, def.ConstantReference.ReferredPkg, def.ConstantReference.ReferredType).1) ==> rootObjects.records.has(old(refKey(call("ast.Schemas.LocateObject", schemas, def.ConstantReference.ReferredPkg, def.ConstantReference.ReferredType).0.SelfRef.ReferredPkg, call("ast.Schemas.LocateObject", schemas, def.ConstantReference.ReferredPkg, def.ConstantReference.ReferredType).0.SelfRef.ReferredType)))
+//@   ensures  grows: forall k: string :: old(rootObjects.records.has(k)) ==> rootObjects.records.has(k)
+//
+// One step of the exploration: an object that is not allowed yet is allowed under the key it was queued
+// with BEFORE its type is explored (the exploration runs callbacks with unknown effects), and its type is
+// explored in the schema of its package.
+//@ func (*FilterSchemas).buildAllowList$3
+//@   property C05
+//@   requires allowList != nil && wf(allowList) && visitor != nil
+//@   at-call "compiler.(*Visitor).VisitType" allowed: allowList.records.has(key) && $arg0 == visitor && $arg2 == object.Type && $arg1 == call("ast.Schemas.Locate", schemas, object.SelfRef.ReferredPkg).0
+//@   ensures  explored: !old(allowList.records.has(refKey(object.SelfRef.ReferredPkg, object.SelfRef.ReferredType))) && old(call("ast.Schemas.Locate", schemas, object.SelfRef.ReferredPkg).1) ==> called("compiler.(*Visitor).VisitType", old(visitor), old(call("ast.Schemas.Locate", schemas, object.SelfRef.ReferredPkg).0), object.Type)
+//
+// The filter itself: exactly the objects whose own key is in the allow list are kept, with their values
+// and their relative order.
+//@ func (*FilterSchemas).processSchema$1
+//@   property C05
+//@   requires allowList != nil
+//@   modifies nothing
+//@   ensures  result == allowList.records.has(refKey(object.SelfRef.ReferredPkg, object.SelfRef.ReferredType))
+//
+//@ func (*FilterSchemas).processSchema
+//@   property C05
+//@   requires schema != nil && wf(schema.Objects) && allowList != nil
+//@   modifies schema.Objects
+//@   ensures  same: result == schema
+//@   ensures  wf: wf(schema.Objects)
+//@   ensures  kept: forall k: string :: schema.Objects.records.has(k) == (old(schema.Objects.records.has(k)) && allowList.records.has(refKey(old(schema.Objects.records[k]).SelfRef.ReferredPkg, old(schema.Objects.records[k]).SelfRef.ReferredType)))
+//@   ensures  values: forall k: string :: schema.Objects.records.has(k) ==> schema.Objects.records[k] == old(schema.Objects.records[k])
+//@   ensures  order: forall a, b: int :: 0 <= a && a < b && b < len(schema.Objects.order) ==> skolem("pos", "pre", schema.Objects.order[a]) < skolem("pos", "pre", schema.Objects.order[b])
+//@   inlined-loop 0:
+//@     invariant kept: forall k: string :: newMap.records.has(k) ==> allowList.records.has(refKey(orderedMap.records[k].SelfRef.ReferredPkg, orderedMap.records[k].SelfRef.ReferredType))
+//@     invariant complete: forall k: string :: orderedMap.records.has(k) && skolem("pos", "pre", k) <= $i && allowList.records.has(refKey(orderedMap.records[k].SelfRef.ReferredPkg, orderedMap.records[k].SelfRef.ReferredType)) ==> newMap.records.has(k)
